@@ -28,10 +28,10 @@ ALL_PROPS = ['C%02d' % i for i in range(1, 18)]
 # executable oracles of the replay tool (real code) per property: used for (i) a concrete failing history next to a failed
 # obligation, (ii) the thorough tier's randomized exploration, (iii) the bounded stand-in when a function is out of the
 # verifier's reach
-ORACLES = {'C01': ['solvency'], 'C02': ['settlement', 'solvency'], 'C03': ['match_eligibility'],
-           'C04': ['solvency', 'exit_liveness'], 'C05': ['authorization', 'config_change'], 'C06': ['exit_liveness'], 'C07': ['admission'],
-           'C08': ['approver_tracks_size'], 'C09': ['solvency', 'settlement', 'admission'], 'C10': ['mechanism'],
-           'C11': ['bid_consistency', 'ask_consistency'], 'C12': ['config_change'], 'C13': ['instantiate_coherence', 'storage_format'],
+ORACLES = {'C01': ['solvency', 'migration'], 'C02': ['settlement', 'solvency'], 'C03': ['match_eligibility'],
+           'C04': ['solvency', 'exit_liveness', 'migration', 'mechanism'], 'C05': ['authorization', 'config_change'], 'C06': ['exit_liveness', 'migration', 'mechanism'], 'C07': ['admission'],
+           'C08': ['approver_tracks_size', 'solvency', 'mechanism'], 'C09': ['solvency', 'settlement', 'admission', 'migration'], 'C10': ['mechanism'],
+           'C11': ['bid_consistency', 'ask_consistency', 'exit_liveness', 'attributes'], 'C12': ['config_change'], 'C13': ['instantiate_coherence', 'storage_format'],
            'C14': ['migration', 'storage_format'], 'C15': ['migration', 'storage_format'], 'C16': ['queries', 'storage_format'],
            'C17': ['attributes']}
 # properties with strict-mode (liveness) clauses
@@ -124,7 +124,7 @@ def classify(diags, lm, gen_path):
             entry['kind'] = 'rlimit'
             undecided.append(entry)
             continue
-        if 'not supported' in msg or 'unsupported' in msg.lower() or 'Verus does not' in msg or 'is not allowed' in msg:
+        if re.search(r'not supported|unsupported|not yet support|does not support|Verus does not|is not allowed', msg, re.I):
             entry['kind'] = 'unsupported'
             entry['lines'] = [sp['line_start'] for sp in spans]
             compile_errors.append(entry)
@@ -358,7 +358,7 @@ def main():
                 report, linemap = gen.generate(mode, out, None, force)
             except (gen.GenError, gen.LexError) as e:
                 log('UNDECIDED property=%s: extraction failed (%s): %s' % (prop, mode, e))
-                return 2
+                return global_stand_in(prop, a.tier, seed, 'extraction failed (%s): %s' % (mode, e)) if prop != 'ALL' else 2
             lm = LineMap(linemap)
             extra = []
             if a.tier == 'thorough' and seed:
@@ -366,7 +366,7 @@ def main():
             res = run_verus(out, extra)
             if res['timeout']:
                 log('UNDECIDED property=%s: verifier timed out (%s)' % (prop, mode))
-                return 2
+                return global_stand_in(prop, a.tier, seed, 'verifier timed out (%s)' % mode) if prop != 'ALL' else 2
             failures, undecided, compile_errors = classify(res['diags'], lm, out)
             # a repository function the verifier cannot translate (new std call, unsupported construct): stub that
             # function only (contract assumed, its properties undecided) and decide the rest
@@ -418,6 +418,32 @@ def main():
             except OSError:
                 pass
     return code
+
+
+def global_stand_in(prop, tier, seed, why):
+    """the whole generated file is out of the verifier's reach on this tree: bounded stand-in on the real code"""
+    ev = {'property_id': prop, 'tier': tier, 'seed': seed, 'level': 'proof',
+          'coverage': {'obligations': 0, 'discharged': 0, 'checker_cmd': 'none: ' + why, 'undecided': [why], 'bounded': []},
+          'assumptions': ASSUMPTION_IDS, 'wall_s': 0, 'violations': 0}
+    if ORACLES.get(prop) and not os.environ.get('VERIF_NO_WITNESS'):
+        rdir = os.path.join(VERIF, 'replays', prop)
+        hits, runs, note = run_searches(prop, seed or 1, 3000 if tier == 'quick' else 12000, rdir, 'bounded')
+        ev['coverage']['bounded'] = [{'functions': ['<whole crate>'], 'stand_in': 'randomized search over histories of the real contract with the oracle(s) %s' % ', '.join(ORACLES[prop]),
+                                      'bound': '%s; histories of at most 10 generated steps (migration 14, instantiate 2), seed %d' % (note, seed or 1),
+                                      'counts_as': 'bounded exploration only - the property stays undecided when nothing is found', 'runs': runs}]
+        ev['violations'] = len(hits)
+        json.dump(ev, open(os.path.join(EVIDENCE_DIR, '%s.json' % prop), 'w'), indent=1)
+        if hits:
+            path = os.path.join(rdir, 'bounded_stand_in.json')
+            json.dump({'property': prop, 'failed_obligation': None, 'mode': 'bounded stand-in', 'functions_out_of_reach': ['<whole crate>'],
+                       'why_out_of_reach': [why], 'witness_history': hits[0][0], 'witness_note': hits[0][1],
+                       'how_to_replay': './check %s --replay %s' % (prop, path)}, open(path, 'w'), indent=1)
+            log('VIOLATION property=%s replay=%s' % (prop, path))
+            return 1
+        log('UNDECIDED property=%s: bounded stand-in on the real code found no failing history (%s)' % (prop, note))
+    else:
+        json.dump(ev, open(os.path.join(EVIDENCE_DIR, '%s.json' % prop), 'w'), indent=1)
+    return 2
 
 
 def downgrade_uncontracted(failures, report, lm, text):
@@ -487,8 +513,9 @@ def vacuity_run(mode, prop, tag, force=None):
     for d in res['diags']:
         if d.get('level') != 'error':
             continue
-        if d.get('code') is not None or 'not supported' in d.get('message', '') or 'unsupported' in d.get('message', '').lower():
-            compile_err = d.get('message')
+        msg = d.get('message', '')
+        if d.get('code') is not None or re.search(r'not supported|unsupported|not yet support|does not support|aborting due to', msg, re.I):
+            compile_err = msg
         for sp in d.get('spans', []):
             for f in twins:
                 if f['line_start'] <= sp['line_start'] <= f['line_end']:
@@ -498,8 +525,9 @@ def vacuity_run(mode, prop, tag, force=None):
             os.remove(out + ext)
         except OSError:
             pass
-    if compile_err or res['json'] is None:
-        return {'error': 'vacuity file did not compile: %s' % (compile_err or res.get('stderr_tail', '')[-300:])}
+    vr = (res['json'] or {}).get('verification-results') or {}
+    if compile_err or res['json'] is None or (vr.get('verified', 0) + vr.get('errors', 0)) == 0:
+        return {'error': 'vacuity file did not compile / was not verified: %s' % (compile_err or res.get('stderr_tail', '')[-300:])}
     not_refuted = sorted(f['qname'] for f in twins if f['qname'] not in refuted)
     return {'twins': len(twins), 'refuted_as_required': len(refuted), 'verified_but_must_fail': not_refuted,
             'wall_s': round(res['wall_s'], 1)}
@@ -627,6 +655,12 @@ def finish(prop, tier, seed, results, t_start, extra=None):
         if r['compile_errors']:
             undecided_msgs.append('%s: the generated file does not compile / uses an unsupported construct: %s'
                                   % (mode, r['compile_errors'][0]['message'][:300]))
+            out_of_reach.append('<whole file>')
+        for q, pp in (r['report'].get('missing_contracted') or {}).items():
+            if prop in pp or '*' in pp:
+                undecided_msgs.append('%s: the contracted function %s no longer exists in /repo (renamed or folded into another '
+                                      'function): its clauses cannot be checked' % (mode, q))
+                out_of_reach.append(q)
         for u in r['undecided']:
             fq = (u.get('function') or '').split('#')[0]
             if fq in fns or u['kind'] == 'rlimit' and (not fq or fq in fns) or \
